@@ -8,6 +8,7 @@ import os
 import re
 import tempfile
 
+from vlib import c18_api as api_lines
 from vlib import c18_gen as gen
 from vlib import exa, textgen
 from vlib.refwire import build, codec
@@ -25,6 +26,12 @@ RULE = (
     'Accepted definitions are encoded for 16 sessions (iBGP/eBGP x ASN4 x ADD-PATH x 4096/65535) and the bytes decoded by refwire are compared with the values as written. '
     'vpls-text / flow-text: the same for `vpls` (endpoint, base, offset, size, rd at and beyond their bounds) and simple flow definitions (ports, dscp, packet-length, protocol, '
     'rate-limit, redirect AS:NN halves, mark) through API.api_vpls / api_flow, `<afi> flow`, and the l2vpn / flow / announce configuration sections. '
+    'api-lines: 1-4 such definitions (route / family / attributes / vpls / flow, the same generators; one in seven stops early: whole clauses cut off the end, the last one left cut inside) are written as command lines '
+    'by a pipe-backed helper process to the real Reactor + Processes with two neighbors (iBGP and eBGP, every family): `peer * | <ip> | [ a , b ] announce|withdraw <definition>` under API v6, '
+    '`announce ..` / `neighbor <ip> announce ..` / `neighbor a , neighbor b ..` (the legacy dispatcher) under API v4, announce, withdraw or both in turn, with or without a trailing json / text / sync / async; '
+    'the verb alone, a keyword alone and the opening words of a block are enumerated. Per line: exactly one done / error, nothing logged with a traceback, error => no Adj-RIB-Out changed, '
+    'done => the routes handed over are in the Adj-RIB-Out of every neighbor named and are judged there by the oracle above (16 sessions, values as written), '
+    'and the line agrees on accept / refuse with the direct entry point (parse_route_text / partial / API.api_*) for the same text. '
     'Non-trivial = one field is mutated or lies within +-1 of a bound'
 )
 ASSUMPTIONS = [
@@ -40,6 +47,14 @@ ASSUMPTIONS = [
     'LOCAL_PREF given explicitly on eBGP: presence is not compared; order inside community attributes is not compared; adjacent AS_SEQUENCE segments read as one',
     'the only permitted "no message" is an attribute set above 4096 octets on a session without extended message',
     'vpls / flow: only "no unhandled exception", "a definition which cannot be expressed is not accepted" and "accepted definitions encode without raising" (plus the VPLS NLRI fields as written); acceptance of RFC-valid values is not demanded there (a label base above 65535 is refused today: classified refused-valid:base>65535); FlowSpec semantics are C16\'s',
+    'api-lines, how an unhandled exception shows: announce_route / announce_attributes / withdraw_* of those catch Exception and answer `error: Unexpected error: <type>`, the other handlers let it leave the scheduled callback, where ASYNC logs async.callback.error and its error handler answers `error`: the helper reads an error reply either way, so the exception is taken from the two log calls which carry it (lazyexc in reactor/asynchronous.py and reactor/api/__init__.py are wrapped to record it). An exception the direct entry point raises as well (same type, same innermost frame) gets the signature the entry-point engines give it (parse:<form>:<keyword>:...), any other one api-line:<form>:<verb>:<type>@<frame>; no terminal reply within 4 s of reactor time, more than one, or the end of the reactor task are api-line:no-reply / several-replies / reactor-loop-ended',
+    'api-lines, terminal reply: a line which is exactly `done` or `error` (the process uses the text encoder); the free-text `error: ...` line before it is not counted',
+    'api-lines, Adj-RIB-Out: no session comes up (every connect fails). Compared by identity of the stored route objects: the routes kept as announced, the watchdog groups and the eor / refresh / operational queues must be equal after a refused line; the announces and withdraws queued for the session may only lose members (a peer which fails to connect drops them, OutgoingRIB.reset) - found as a false alarm of the first version',
+    'api-lines, routes: Configuration.announce_route / withdraw_route of the reactor are wrapped to see which routes a handler hands over; the objects judged are the ones found under the same index in the RIB of the neighbors the line names (both copies when they differ). That a neighbor the line does not name stays untouched is C14\'s',
+    'api-lines, agreement: config-file entries of the generators are replaced by parse_route_text / partial / api; when line and direct call differ the record decides (fits True: the one which refuses deviates, fits False: the one which accepts); a deviation of the direct call is reported with the signature its own engine gives it, one of the line as entry-points:api-line-refuses-valid / -accepts-unfit; for a text outside the grammar (fits None) a difference is only classified. vpls / flow: agreement is demanded although acceptance of valid values is not',
+    'api-lines, withdraw: the same text behind the other verb must be accepted or refused as the announce is, except that a withdraw needs no next hop; what it accepts must encode as a withdraw for every session (values are not compared); a withdraw accepted with a value beyond its bound or a malformed token is accepted-unfit',
+    'api-lines, unfinished texts: a cut which removes next-hop (label / rd of the `<afi> <safi>` form, any vpls field) is the dropped-clause mutation (must be refused), any other one is outside the grammar; for the enumerated heads only: one reply, no exception, error => nothing changed, done => it encodes (an empty `flow route` and `attributes next-hop N nlri` are accepted today and encode: classified)',
+    'api-lines, listed findings: every definition of a case is judged even when an earlier one meets a finding listed in known_findings.json (read for this only), and an unlisted violation is reported before a listed one, so that the search goes on behind the 13 listed root causes',
     'VERIF_C18_KNOWN (comma separated fnmatch patterns, `python -m vlib.c18_findings patterns`) turns diagnosed signatures into classes tolerated:<signature> while developing; registered runs never set it',
 ]
 
@@ -546,7 +561,9 @@ def check_route(case: dict) -> dict:
     return res
 
 
-def _check_route(case: dict) -> dict:
+def _check_route(case: dict, out: Outcome | None = None) -> dict:
+    """out: the outcome to judge when the definition was offered somewhere else (the api-lines engine); the entry point of the
+    case is then only used to name the clause at fault"""
     exa.reset_global_state()
     form, entry, fits, mutation = case['form'], case['entry'], case['fits'], case['mutation']
     cl = case['clauses']
@@ -556,7 +573,8 @@ def _check_route(case: dict) -> dict:
     classes.append('mutation:' + (f'{mutation["kind"]}:{mutation["field"]}' if mutation else 'none'))
     nontrivial = bool(case['near'])
 
-    out = attempt_route(case, cl)
+    if out is None:
+        out = attempt_route(case, cl)
 
     # (a) a route list or a clean refusal
     note = ''
@@ -689,12 +707,13 @@ def check_vpls(case: dict) -> dict:
     return res
 
 
-def _check_vpls(case: dict) -> dict:
+def _check_vpls(case: dict, out: Outcome | None = None) -> dict:
     exa.reset_global_state()
     cl, fits, mutation = case['clauses'], case['fits'], case['mutation']
     text = gen.text_of(cl)
     classes = [f'entry:{case["entry"]}', f'fits:{fits}', 'mutation:' + (f'{mutation["kind"]}:{mutation["field"]}' if mutation else 'none')]
-    out = attempt_vpls(case, cl)
+    if out is None:
+        out = attempt_vpls(case, cl)
     where = f'vpls via {case["entry"]}' + (f', {mutation["kind"]} on {mutation["field"]}' if mutation else '')
     if out.kind == 'unlocated' and 'problem parsing configuration file' in out.reason:
         direct = dict(case, entry='api')
@@ -840,14 +859,15 @@ def check_flow(case: dict) -> dict:
     return res
 
 
-def _check_flow(case: dict) -> dict:
+def _check_flow(case: dict, out: Outcome | None = None) -> dict:
     exa.reset_global_state()
     fits, mutation = case['fits'], case['mutation']
     cl = [[c[0], c[1], 'match'] for c in case['match']] + [[c[0], c[1], 'then'] for c in case['then']]
     text = flow_texts(case, case['match'], case['then'])[1] or ' '.join(c[1] for c in cl)
     classes = [f'entry:{case["entry"]}', f'fits:{fits}', 'mutation:' + (f'{mutation["kind"]}:{mutation["field"]}' if mutation else 'none')]
     where = f'flow via {case["entry"]}' + (f', {mutation["kind"]} on {mutation["field"]}' if mutation else '')
-    out = attempt_flow(case, cl)
+    if out is None:
+        out = attempt_flow(case, cl)
     if out.kind == 'unlocated' and 'problem parsing configuration file' in out.reason:
         direct = dict(case, entry='api-block')
         again = attempt_flow(direct, cl)
@@ -882,6 +902,369 @@ def _check_flow(case: dict) -> dict:
         if fits is True and not msgs:
             raise violation('wire:flow:no-message', f'nothing is sent for "{text[:300]}"')
     return {'nontrivial': bool(case['near']), 'classes': classes, 'sample': {'text': text[:200], 'entry': case['entry']}}
+
+
+# ---------------------------------------------------------------------------- api-lines: the same definitions as command lines
+#
+# The line is written by a helper process on its pipe, read by the real Processes, dispatched by reactor/api/dispatch (v6 or v4
+# spelling) to the handlers of reactor/api/command/announce.py, which answer on the pipe and change the Adj-RIB-Out of the neighbors
+# the line names.  The three judges above decide about the outcome seen there; the direct entry point names the clause at fault.
+
+_JUDGE = {'route': lambda c, o: _check_route(c, o), 'vpls': lambda c, o: _check_vpls(c, o), 'flow': lambda c, o: _check_flow(c, o)}
+
+
+def _line_form(kind: str, case: dict) -> str:
+    return case['form'] if kind == 'route' else kind
+
+
+def _line_direct(kind: str, case: dict) -> dict:
+    """the case as the entry-point engines run it: the direct call the line is compared with"""
+    entry = case['entry']
+    if kind == 'route' and entry.startswith('config'):
+        entry = {'route': 'parse_route_text', 'family': 'partial', 'attributes': 'api'}[case['form']]
+    elif kind == 'vpls' and entry.startswith('config'):
+        entry = 'api'
+    elif kind == 'flow' and entry == 'config':
+        entry = 'api-block'
+    return dict(case, entry=entry)
+
+
+def _line_clauses(kind: str, case: dict) -> list:
+    if kind == 'flow':
+        return [[c[0], c[1], 'match'] for c in case['match']] + [[c[0], c[1], 'then'] for c in case['then']]
+    return case['clauses']
+
+
+def _line_definition(kind: str, case: dict) -> str:
+    """the definition as it follows `announce ` / `withdraw ` on the line"""
+    if kind == 'flow':
+        entry = case['entry'] if case['entry'] in ('api-block', 'api-flat', 'family') else 'api-block'
+        return flow_texts(dict(case, entry=entry), case['match'], case['then'])[1]
+    return gen.text_of(case['clauses'])
+
+
+def _line_attempt(kind: str, case: dict) -> Outcome:
+    attempt = {'route': attempt_route, 'vpls': attempt_vpls, 'flow': attempt_flow}[kind]
+    return attempt(case, _line_clauses(kind, case))
+
+
+def _judged(kind: str, case: dict, out: Outcome, where: str) -> dict:
+    """the judge of the entry-point engines on an outcome seen on the line path (its signatures are theirs: one root cause, one signature)"""
+    try:
+        return _JUDGE[kind](case, out)
+    except Violation as v:
+        raise violation(v.signature, f'{where}: {v.message}') from None
+
+
+def _kind3(out: Outcome) -> str:
+    return 'accepted' if out.kind == 'routes' else ('exception' if out.kind == 'exception' else 'refused')
+
+
+def _encode_withdraw(route, neighbor, neg) -> list:
+    from exabgp.bgp.message.update.collection import UpdateCollection
+
+    route = neighbor.resolve_self(route)
+    return [bytes(m) for m in UpdateCollection([], [route.nlri], route.attributes).messages(neg)]
+
+
+def _line_reply(obs: dict, form: str, verb: str, shown: str) -> str:
+    """(1) exactly one terminal reply, from a reactor which is still there"""
+    logged = obs['exceptions']
+    if obs.get('skipped'):
+        raise RuntimeError('harness: the line was not written, the reactor loop had ended on an earlier line which should have been reported')
+    if obs['ended'] is not None:
+        if isinstance(obs['ended'], BaseException):
+            raise violation(exception_signature(f'api-line:reactor-loop-ended:{form}:{verb}', obs['ended']), f'{obs["ended"]!r} ended the reactor loop on the line "{shown}"') from obs['ended']
+        raise violation(f'api-line:reactor-loop-ended:{form}:{verb}', f'the reactor loop returned on the line "{shown}" (replies {obs["replies"][-3:]})')
+    terms = obs['terminals']
+    if not terms:
+        if logged:
+            raise violation(exception_signature(f'api-line:no-reply:{form}:{verb}', logged[0]), f'the line "{shown}" is not answered ({REPLY_WAIT_TEXT}); logged: {logged[0]!r}; replies {obs["replies"][-3:]}') from logged[0]
+        raise violation(f'api-line:no-reply:{form}:{verb}', f'the line "{shown}" is answered with neither done nor error ({REPLY_WAIT_TEXT}); replies {obs["replies"][-3:]}')
+    if len(terms) > 1:
+        raise violation(f'api-line:several-replies:{form}:{verb}:{"+".join(terms[:3])}', f'the line "{shown}" is answered {len(terms)} times: {obs["replies"][-6:]}' + (f'; logged: {logged[0]!r}' if logged else ''))
+    return terms[0]
+
+
+REPLY_WAIT_TEXT = 'within 4 s of reactor time'
+
+
+def _judge_line_item(version: int, item: dict, observations: list) -> list:
+    """one definition, its one or two lines; -> classes; raises the violation"""
+    kind, case = item['kind'], item['case']
+    form, fits, mutation = _line_form(kind, case), case['fits'], case['mutation']
+    m = mutation or {'kind': 'none', 'field': 'none', 'what': 'none'}
+    direct_case = _line_direct(kind, case)
+    picked = api_lines.selected(item['select'])
+    classes = [f'kind:{kind}', f'form:{form}', f'verb:{item["verb"]}', f'select:{item["select"]}', f'fits:{fits}', f'direct:{direct_case["entry"]}', 'mutation:' + (f'{m["kind"]}:{m["field"]}' if mutation else 'none')]
+    if item.get('suffix'):
+        classes.append('suffix:' + item['suffix'].replace(' ', '+'))
+    direct = None
+    announce_said = None
+
+    def self_other_afi(exc: BaseException) -> bool:
+        # documented: next-hop self needs a transport address of the family of the route (both sessions are IPv4 ones)
+        return kind == 'route' and case['afi'] == 2 and isinstance(exc, TypeError) and 'next-hop self' in str(exc)
+
+    for verb, obs in zip(api_lines.verbs(item), observations):
+        line = obs['line']
+        shown = line if len(line) < 300 else line[:300] + f'... ({len(line)} characters)'
+        where = f'API line "{shown}" (api v{version})'
+        said = _line_reply(obs, form, verb, shown)
+        logged = obs['exceptions']
+        classes.append(f'{verb}:{said}' + (':exception-logged' if logged else ''))
+
+        # (2) refused: no Adj-RIB-Out has changed
+        if said == 'error':
+            changed = [api_lines.NEIGHBORS[i]['ip'] for i in range(len(obs['before'])) if api_lines.changed(obs['before'][i], obs['after'][i])]
+            if changed:
+                raise violation(f'api-line:error-reply-but-rib-changed:{form}:{verb}', f'{where} is answered error ({obs["replies"][-2:]}), the outgoing RIB of {changed} has changed' + (f'; logged: {logged[0]!r}' if logged else ''))
+
+        if logged and all(self_other_afi(e) for e in logged):
+            if said != 'error':
+                raise violation(f'api-line:done-after-exception:{form}:{verb}', f'{where}: {logged[0]!r} is logged and the line answered done')
+            classes.append('self-other-afi-refused')
+            if verb == 'announce':
+                announce_said = 'refused'
+            continue
+
+        if direct is None:
+            direct = _line_attempt(kind, direct_case)
+            classes.append(f'direct:{_kind3(direct)}')
+        dk = _kind3(direct)
+
+        # an exception is an exception whatever the helper reads (every handler, or the scheduler behind it, answers error)
+        if logged:
+            seen = Outcome('exception', exc=logged[0])
+            if seen.same_failure(direct):
+                # the parser's: the judge names it as the entry-point engines do
+                _judged(kind, direct_case, seen, f'{where}, answered {said}')
+                raise RuntimeError('harness: the judge let an exception pass')
+            raise violation(
+                exception_signature(f'api-line:{form}:{verb}', logged[0]), f'{logged[0]!r} at {innermost_repo_frame(logged[0])} while {where} is executed (answered {said}); the same definition through {direct_case["entry"]} is {dk}'
+            ) from logged[0]
+        if dk == 'exception':
+            _judged(kind, direct_case, direct, f'{where} is answered {said}; through {direct_case["entry"]}')
+            raise RuntimeError('harness: the judge let an exception pass')
+
+        if verb == 'withdraw':
+            classes += _judge_withdraw_line(kind, case, form, m, obs, said, direct, direct_case, announce_said, where, picked)
+            continue
+
+        # ---- announce
+        if said == 'done':
+            if not obs['announced']:
+                raise violation(f'api-line:done-without-route:{form}', f'{where} is answered done, no route was handed to the outgoing RIBs')
+            routes = []
+            for k, (_names, route) in enumerate(obs['announced']):
+                for i in picked:
+                    if not obs['found'][i][k]:
+                        raise violation(f'api-line:done-but-route-not-in-adj-rib-out:{form}', f'{where} is answered done, {extensive(route)} is not in the Adj-RIB-Out of {api_lines.NEIGHBORS[i]["ip"]}')
+                routes.append(obs['found'][picked[0]][k][0])
+            seen = Outcome('routes', routes)
+            extra = []
+            if len(picked) > 1:
+                # the copies of the other neighbor: judged as well when they are not the same values
+                others = [obs['found'][picked[1]][k][0] for k in range(len(routes))]
+                try:
+                    same = all(o is r or (o.index() == r.index() and o.attributes.index() == r.attributes.index() and getattr(o.nlri, '_packed', None) == getattr(r.nlri, '_packed', None) and str(o.nexthop) == str(r.nexthop)) for o, r in zip(others, routes))
+                except Exception:  # noqa: BLE001
+                    same = False
+                if not same:
+                    extra = [Outcome('routes', others)]
+                    classes.append('neighbors-hold-different-values')
+        else:
+            seen = Outcome('refused', reason=' | '.join(obs['replies'][-2:]), how='api-line')
+            extra = []
+        lk = _kind3(seen)
+        announce_said = lk
+
+        # (4) the entry points agree on accept / refuse; the record says which one is wrong when they do not
+        if lk != dk:
+            both = f'{where} is {lk}, the same definition through {direct_case["entry"]} is {dk}' + (f' ({" ".join(direct.reason.split())[:160]})' if dk == 'refused' else '') + (f' (answered {obs["replies"][-2:]})' if lk == 'refused' else '')
+            if fits is None:
+                classes.append(f'entry-points-disagree:ungrammatical:line-{lk}')
+                if lk == 'accepted':
+                    _judged(kind, direct_case, seen, where)  # what is accepted must still encode
+                continue
+            direct_deviates = (dk == 'refused') == bool(fits)
+            if direct_deviates:
+                _judged(kind, direct_case, direct, both)
+                if kind != 'route' and fits is True:
+                    # vpls / flow: acceptance of valid values is not demanded of an entry point, agreement between them is
+                    raise violation(f'entry-points:{direct_case["entry"]}-refuses-what-the-api-line-sends:{form}:{m["field"]}', f'{both} ({describe_any(kind, case)})')
+                raise violation(f'entry-points:{direct_case["entry"]}-{"refuses-valid" if fits else "accepts-unfit"}:{form}:{m["field"]}:{m["what"]}', f'{both} ({describe_any(kind, case)})')
+            if fits:
+                raise violation(f'entry-points:api-line-refuses-valid:{form}:{m["field"]}', f'{both}; every value fits the wire format ({describe_any(kind, case)})')
+            raise violation(f'entry-points:api-line-accepts-unfit:{form}:{m["field"]}:{m["what"]}', f'{both} ({[extensive(r) for r in seen.routes[:2]]}; {describe_any(kind, case)})')
+
+        # (3) accepted: what is in the Adj-RIB-Out encodes for every session with the values as written (refused: was it valid?)
+        info = _judged(kind, direct_case, seen, where)
+        for out in extra:
+            _judged(kind, direct_case, out, f'{where}, the copy of {api_lines.NEIGHBORS[picked[1]]["ip"]}')
+        classes += [f'judge:{c}' for c in info.get('classes', []) if c.split(':')[0] in ('refused', 'accepted', 'values-as-written', 'ungrammatical-accepted', 'refused-valid', 'huge', 'self-other-afi-refused')]
+    return classes
+
+
+def describe_any(kind: str, case: dict) -> str:
+    m = case['mutation']
+    return f'{_line_form(kind, case)}' + (f', {m["kind"]} on {m["field"]} ({m["what"]})' if m else ', no mutation')
+
+
+def _judge_withdraw_line(kind: str, case: dict, form: str, m: dict, obs: dict, said: str, direct: Outcome, direct_case: dict, announce_said, where: str, picked: list) -> list:
+    """a withdraw line is the same text behind another verb: accepted or refused as the announce is, except for what only an
+    announce needs (the next hop); what it accepts can be written as a withdraw for every session"""
+    fits = case['fits']
+    dk = _kind3(direct)
+    needs_only_announce = m['kind'] == 'dropped-clause' and m['field'] == 'next-hop'
+    if said == 'done':
+        if not obs['withdrawn']:
+            raise violation(f'api-line:done-without-route:{form}:withdraw', f'{where} is answered done, no route was handed to the outgoing RIBs')
+        if fits is False and m['kind'] in ('over-bound', 'malformed'):
+            if dk == 'accepted':
+                raise violation(f'accepted-unfit:{form}:{m["field"]}:{m["what"]}', f'{where} is accepted ({[extensive(r) for _, r in obs["withdrawn"][:2]]}), as the announce through {direct_case["entry"]} is ({describe_any(kind, case)})')
+            raise violation(f'entry-points:api-line-withdraw-accepts-unfit:{form}:{m["field"]}:{m["what"]}', f'{where} is accepted ({[extensive(r) for _, r in obs["withdrawn"][:2]]}); the announce of the same definition through {direct_case["entry"]} is {dk} ({describe_any(kind, case)})')
+        if kind == 'route':
+            pool = sessions()
+        elif kind == 'vpls':
+            pool = [(None,) + other_session(['l2vpn vpls'], [(25, 65)])]
+        else:
+            pool = [(None,) + other_session(['ipv4 flow', 'ipv6 flow'], [(1, 133), (2, 133)])]
+        for _names, route in obs['withdrawn']:
+            for _, neighbor, neg in pool:
+                try:
+                    _encode_withdraw(route, neighbor, neg)
+                except Exception as exc:  # noqa: BLE001
+                    if fits is False:
+                        raise violation(f'accepted-unfit:{form}:{m["field"]}:{m["what"]}', f'{where} is accepted ({extensive(route)}), then writing the withdraw raises {exc!r} ({describe_any(kind, case)})') from None
+                    # (the signature of an announce which fails in the same frame: one root cause, the acceptance of that route)
+                    raise violation(exception_signature(f'encode:{form}:{m["field"]}', exc), f'{exc!r} when the withdraw accepted from {where} is encoded ({describe_any(kind, case)})') from exc
+        if announce_said == 'refused' and not (fits is False and m['kind'] == 'dropped-clause') and fits is not None:
+            raise violation(f'entry-points:withdraw-accepts-what-announce-refuses:{form}:{m["field"]}', f'{where} is accepted, the announce line of the same definition was refused ({describe_any(kind, case)})')
+        return ['withdraw-encodes']
+    # refused
+    if announce_said == 'accepted':
+        raise violation(f'entry-points:withdraw-refuses-what-announce-accepts:{form}:{m["field"]}', f'{where} is refused ({obs["replies"][-2:]}), the announce line of the same definition was accepted ({describe_any(kind, case)})')
+    if fits is True and kind == 'route' and announce_said is None:
+        if dk == 'accepted':
+            raise violation(f'entry-points:api-line-withdraw-refuses-valid:{form}:{m["field"]}', f'{where} is refused ({obs["replies"][-2:]}), the announce of the same definition through {direct_case["entry"]} is accepted; every value fits the wire format ({describe_any(kind, case)})')
+        _judged('route', direct_case, direct, f'{where} (and the announce through {direct_case["entry"]})')  # refused as the announce is: the parser's refused-valid
+    return []
+
+
+def _judge_raw_item(version: int, item: dict, observations: list) -> list:
+    """a definition which stops early (`announce`, `announce flow`, the first words of a definition): no record says what it
+    means, so only: one terminal reply, no exception, nothing in a RIB after error, and what is announced after done encodes"""
+    words = item['text'].split(' ')
+    head = words[0] if words[0] in ('route', 'ipv4', 'ipv6', 'flow', 'vpls', 'attribute', 'attributes') else 'other'
+    verb, obs = item['verb'], observations[0]
+    line = obs['line']
+    where = f'API line "{line[:300]}" (api v{version})'
+    said = _line_reply(obs, f'truncated-{head}', verb, line[:300])
+    logged = obs['exceptions']
+    classes = ['kind:truncated', f'head:{head}', f'words:{min(len(words), 6) if item["text"] else 0}', f'{verb}:{said}']
+    if said == 'error':
+        changed = [api_lines.NEIGHBORS[i]['ip'] for i in range(len(obs['before'])) if api_lines.changed(obs['before'][i], obs['after'][i])]
+        if changed:
+            raise violation(f'api-line:error-reply-but-rib-changed:truncated-{head}:{verb}', f'{where} is answered error ({obs["replies"][-2:]}), the outgoing RIB of {changed} has changed')
+    if logged:
+        if all(isinstance(e, TypeError) and 'next-hop self' in str(e) for e in logged):
+            return classes + ['self-other-afi-refused']
+        raise violation(exception_signature(f'api-line:truncated-{head}:{verb}', logged[0]), f'{logged[0]!r} at {innermost_repo_frame(logged[0])} while {where} is executed (answered {said})') from logged[0]
+    if said == 'done':
+        handed = obs['announced'] if verb == 'announce' else obs['withdrawn']
+        if not handed:
+            raise violation(f'api-line:done-without-route:truncated-{head}:{verb}', f'{where} is answered done, no route was handed to the outgoing RIBs')
+        for k, (_names, route) in enumerate(handed):
+            family = tuple(int(x) for x in route.nlri.family().afi_safi())
+            if family == (25, 65):
+                pool = [(None,) + other_session(['l2vpn vpls'], [(25, 65)])]
+            elif family[1] == 133:
+                pool = [(None,) + other_session(['ipv4 flow', 'ipv6 flow'], [(1, 133), (2, 133)])]
+            else:
+                pool = sessions()
+            if verb == 'announce':
+                for i in api_lines.selected(item['select']):
+                    if not obs['found'][i][k]:
+                        raise violation(f'api-line:done-but-route-not-in-adj-rib-out:truncated-{head}', f'{where} is answered done, {extensive(route)} is not in the Adj-RIB-Out of {api_lines.NEIGHBORS[i]["ip"]}')
+                route = obs['found'][api_lines.selected(item['select'])[0]][k][0]
+            for _, neighbor, neg in pool:
+                try:
+                    msgs = encode(route, neighbor, neg) if verb == 'announce' else _encode_withdraw(route, neighbor, neg)
+                except Exception as exc:  # noqa: BLE001
+                    lacking = {'announce requires nexthop': 'next-hop', 'unexpected nlri definition': 'next-hop', 'labeled route announce requires labels': 'label', 'VPN route announce requires RD': 'rd'}
+                    lacks = next((kw for start, kw in lacking.items() if isinstance(exc, ValueError) and str(exc).startswith(start)), None)
+                    form = {'route': 'route', 'ipv4': 'family', 'ipv6': 'family', 'attribute': 'attributes'}.get(head, head)
+                    if lacks and verb == 'announce':
+                        # the listed root cause (an announce without next hop / label / rd is accepted), met through a text which stops early
+                        raise violation(f'accepted-unfit:{form}:{lacks}:dropped-clause', f'{where} is accepted ({extensive(route)}), then encoding raises {exc!r}') from None
+                    raise violation(exception_signature(f'encode:truncated-{head}:{verb}', exc), f'{where} is accepted ({extensive(route)}), then encoding raises {exc!r}') from exc
+                if verb == 'announce' and not msgs and family[1] in (133, 65):
+                    raise violation(f'wire:truncated-{head}:no-message', f'{where} is accepted ({extensive(route)}), nothing is sent for it')
+        classes.append('accepted-encodes')
+    return classes
+
+
+_KNOWN_ENTRIES: list = []
+
+
+def _is_listed(signature: str) -> bool:
+    from vlib.runner import load_findings, sig_matches
+
+    if not _KNOWN_ENTRIES:
+        _KNOWN_ENTRIES.append(load_findings(PROPERTY)[0])
+    return any(sig_matches(e, signature) for e in _KNOWN_ENTRIES[0])
+
+
+def check_api_lines(case: dict) -> dict:
+    exa.reset_global_state()
+    version = case['version']
+    lines, owner = [], []
+    for n, item in enumerate(case['items']):
+        text = item['text'] if item['kind'] == 'raw' else _line_definition(item['kind'], item['case'])
+        for verb in api_lines.verbs(item):
+            lines.append(api_lines.command_line(version, item, verb, text))
+            owner.append(n)
+    forget_parsers()
+    observations = api_lines.run_lines(version, lines)
+    classes = [f'api-v{version}', f'lines:{len(lines)}']
+    found: list = []
+    for n, item in enumerate(case['items']):
+        mine = [o for o, k in zip(observations, owner) if k == n]
+        try:
+            classes += (_judge_raw_item if item['kind'] == 'raw' else _judge_line_item)(version, item, mine)
+        except Tolerated as t:
+            classes.append(f'tolerated:{t.signature}')
+        except Violation as v:
+            # the search goes on behind a listed finding: every definition of the case is judged, an unlisted violation is
+            # reported before a listed one
+            found.append(v)
+            if not _is_listed(v.signature):
+                break
+    for v in found:
+        if not _is_listed(v.signature):
+            raise v
+    if found:
+        raise found[0]
+    return {'nontrivial': any(i['kind'] == 'raw' or i['case'].get('near') for i in case['items']), 'classes': classes, 'sample': {'version': version, 'lines': [ln[:200] for ln in lines[:3]]}}
+
+
+def fixed_lines() -> list:
+    """the minimal definitions of the diagnosed findings and the label-stack grid (their API spellings), as lines"""
+    from vlib import c18_findings
+
+    out = []
+    seen = set()
+    pools = [('route', c18_findings.route_cases() + label_stack_cases()), ('vpls', c18_findings.vpls_cases()), ('flow', c18_findings.flow_cases())]
+    for kind, pool in pools:
+        for c in pool:
+            key = (kind, _line_definition(kind, c))
+            if key in seen:
+                continue
+            seen.add(key)
+            n = len(out)
+            out.append(api_lines.single(kind, c, verb=('announce', 'both', 'withdraw')[n % 3] if n % 5 == 0 else 'announce', select=api_lines.SELECTS[n % 4], version=4 if n % 3 == 2 else 6))
+    return out + api_lines.raw_cases()
 
 
 def _tagged(prefix: str, fn):
@@ -929,4 +1312,5 @@ ENGINES = [
     Engine('route-text', gen.route_cases, _tagged('route', check_route), quick=900, thorough=30000, batch=300, fixed_cases=fixed_routes),
     Engine('vpls-text', gen.vpls_cases, _tagged('vpls', check_vpls), quick=250, thorough=6000, batch=125, fixed_cases=fixed_vpls),
     Engine('flow-text', gen.flow_cases, _tagged('flow', check_flow), quick=250, thorough=6000, batch=125, fixed_cases=fixed_flow),
+    Engine('api-lines', api_lines.line_cases, _tagged('lines', check_api_lines), quick=300, thorough=8000, batch=150, fixed_cases=fixed_lines, quick_s=30.0),
 ]
